@@ -28,6 +28,18 @@ ReadFromRe (nested scripts = constant Nests), collab_behaviours() (grid of neste
 orders x answers; plans that fail / short-write / answer (0, nil) on the k-th call; contents of 65535 ..
 200000 bytes) and the random profile "re".  A line the model marks undefined for bytes.Buffer ends the
 checking of its trace without a verdict (SKIPPED).
+
+Records (Buffer.tla, RECYCLING): the encoder a marshaller is handed is a pooled object.  Behaviours with the
+constructor "marshal" run inside a marshaller the real library calls while it formats a record; the step
+"Recycle" ends that record and logs the next one through the same logger, the calls that follow run on the
+encoder handed to the marshaller of the new record.  The model's outcome of the step is New(prefix of the new
+record): compared are what the marshaller sees on entry (Len / String / Bytes, a panic of those, the slices
+the caller still owns) and, through the calls that follow, the hidden state (last read, read point).
+Drivers: the graph action Recycle (every (buffer state, Recycle) transition + identification probes, each as
+its own two-record history: Reset; Write(state's data); path; Recycle; probe), recycle_behaviours() (what the
+first record's marshaller did x length of the next record's message x probes, also over three records) and
+the random drivers (70 % of the "marshal" traces span 2..4 records).  The run is undecided if the pool did
+not hand the same object back often enough.
 """
 import bisect
 import collections
@@ -57,6 +69,9 @@ def lap(what):
         t = os.times()
         sys.stderr.write("[c19 %6.1fs own-cpu %6.1fs children-cpu %6.1fs] %s\n" % (
             time.time() - _T0, t.user + t.system, t.children_user + t.children_system, what))
+
+
+REC_LENS = [0, 1, 7, 40, 150]       # lengths of the messages of follow-up records
 
 
 def rune_space(quick):
@@ -101,7 +116,7 @@ def configs(quick):
         Counts=Raw("-1..4"), MaxLen=3, Inits={()},
         RuneSpace=rune_space(quick), DecBytes=set(DEC_QUICK if quick else DEC_FULL),
         Hold=1, Retain={"Bytes", "Next", "ReadBytes", "ReadString"}, PokeVals={A9},
-        Nests=NESTS_FULL[:12], RePay={4}, ReFins={"err"})
+        Nests=NESTS_FULL[:12], RePay={4}, ReFins={"err"}, Recs={2, 4})
     if quick:
         tiny = dict(small)
         tiny.update(Payloads=[[], [A], [NL], [C3, A9], [C3]], ByteArgs={A, NL, C3}, Runes={A, 0xE9, -1},
@@ -109,24 +124,30 @@ def configs(quick):
         return [("tiny", tiny, True, False)]
     off = dict(RuneSpace=Raw("{}"), DecBytes=set())      # the UTF-8 ASSUMEs are checked once, in "small"
     medium = dict(small)
-    medium.update(off, Nests=[NESTS_QUICK[0], NESTS_QUICK[2]], RePay={4}, Payloads=small["Payloads"] + [[E2, X82, AC]], Runes={A, 0xE9, -1, 0x20AC, 0x1F600},
+    medium.update(off, Nests=[NESTS_QUICK[0], NESTS_QUICK[2]], RePay={4}, Recs={4}, Payloads=small["Payloads"] + [[E2, X82, AC]], Runes={A, 0xE9, -1, 0x20AC, 0x1F600},
                   Counts=Raw("-1..5"), MaxLen=4)
     large = dict(medium)
     large.update(Payloads=medium["Payloads"] + [[E2, X82], [FF]], ByteArgs={A, NL, C3, A9, AC},
                  Runes={A, 0xE9, -1, 0x20AC, 0x1F600, 0xD800})
+    # longer contents (5 bytes: a 4-byte rune and one more; counts up to 6) over a smaller alphabet; the collaborators that
+    # call back and the recycling are explored in the configurations above.  (With the alphabet of "large" this one has
+    # > 1 M states / > 60 M transitions: 2 CPU-hours.)
     big = dict(large)
-    big.update(Payloads=large["Payloads"] + [[0xF0, 0x9F, 0x98, 0x80], [0xF0, 0x9F, 0x98]],
-               ByteArgs={A, NL, C3, A9, AC, 0xF0}, Counts=Raw("-1..6"), MaxLen=5)
-    # (name, constants, dump and replay?, run in the background while the traces are validated?)
-    return [("small", small, True, False), ("medium", medium, True, False), ("large", large, False, False),
+    big.update(Payloads=[[], [A], [NL], [C3, A9], [C3], [0xF0, 0x9F, 0x98, 0x80], [0xF0, 0x9F, 0x98]],
+               ByteArgs={A, NL, 0xF0}, Runes={A, -1, 0x1F600}, Counts=Raw("-1..6"), MaxLen=5, Nests=[], RePay=set(), ReFins=set(),
+               Recs={4})
+    # (name, constants, dump and replay?, run in the background while the worker runs and the traces are validated?)
+    return [("small", small, True, False), ("medium", medium, True, False), ("large", large, False, True),
             ("big", big, False, True)]
 
 
 def impl_config(quick, which="own"):
     """Constants of BufferImpl (the storage algorithm run in lock-step with the abstract model).
-    "own": with the caller's kept slices (regions of the storage / private copies) and stores;
-    "large" (thorough tier): the bigger capacity space without them, as they multiply the states."""
-    c = dict(Payloads=[[], [A], [C3, A9]], Inits={(), (A,), (C3, A9)}, RuneSpace=set(), DecBytes=set(), Nests=[], RePay=set(), ReFins=set(),
+    "own": with the caller's kept slices (regions of the storage / private copies) and stores, one kept at a time, and
+    the writer that calls back (IWriteToRe);  "own2" (thorough tier): two kept slices at a time, no nested scripts (together
+    they are 0.9 M states / 89 M transitions: 2 CPU-hours);  "large" (thorough tier): the bigger capacity space without
+    kept slices, as they multiply the states."""
+    c = dict(Payloads=[[], [A], [C3, A9]], Inits={(), (A,), (C3, A9)}, RuneSpace=set(), DecBytes=set(), Nests=[], RePay=set(), ReFins=set(), Recs=set(),
              SmallBuf=2, MinReadC=2, Retain={"Bytes", "Next", "ReadBytes"}, PokeVals={A9}, Hold=1)
     if which == "own":          # a writer that calls back, on the storage algorithm (IWriteToRe)
         c.update(Nests=[NESTS_QUICK[k] for k in ((0, 1, 2, 3, 5) if quick else (0, 1, 2, 3, 4, 5, 7))], ReFins={"short", "err"})
@@ -136,7 +157,8 @@ def impl_config(quick, which="own"):
     elif quick:
         c.update(ByteArgs={A}, Runes={0xE9}, Counts=Raw("-1..2"), GrowCounts=Raw("-1..3"), MaxLen=2, MaxCap=6)
     else:
-        c.update(ByteArgs={A}, Runes={0xE9}, Counts=Raw("-1..2"), GrowCounts=Raw("-1..3"), MaxLen=2, MaxCap=7, Hold=2)
+        c.update(ByteArgs={A}, Runes={0xE9}, Counts=Raw("-1..2"), GrowCounts=Raw("-1..3"), MaxLen=2, MaxCap=7,
+                 Hold=2 if which == "own2" else 1)
     return c
 
 
@@ -154,7 +176,7 @@ def refinement(ctx, quick):
     ownership contract included (HRel).  Two witness runs break the abstract model on purpose (Grow
     ignoring the capacity; Bytes() not aliasing the storage) and must be rejected."""
     runs = []
-    for which in (["own"] if quick else ["own", "large"]):
+    for which in (["own"] if quick else ["own", "own2", "large"]):
         mci, cfg = impl_files(impl_config(quick, which))
         runs.append(ctx.tlc("MCI", "MCI.cfg", files={"MCI.tla": mci, "MCI.cfg": cfg}, name="buffer-impl-" + which,
                             workers=4 if quick else 6, timeout=2400))
@@ -188,7 +210,7 @@ def refinement(ctx, quick):
     return runs
 
 
-INVARIANTS = "TypeOK PrevShape RuneAgain UnreadLaws Conservation DelimLaw EofLaw ResetLaw HeldOK AliasCoherent OwnLaw ReLaws"
+INVARIANTS = "TypeOK PrevShape RuneAgain UnreadLaws Conservation DelimLaw EofLaw ResetLaw HeldOK AliasCoherent OwnLaw ReLaws RecycleLaw"
 
 
 def mc_files(consts, dump):
@@ -251,6 +273,8 @@ def label_to_op(label, consts, rng):
         return dict(op=name, n=args[0], keep=keep)
     if name in ("ReadByte", "ReadRune", "UnreadByte", "UnreadRune", "Reset", "Len", "Bytes", "String"):
         return dict(op=name, keep=keep)
+    if name == "Recycle":       # the next record; its message is as long as it likes (the model's prefix is a stand-in)
+        return dict(op="Recycle", n=rng.choice(REC_LENS))
     if name == "Poke":          # j = -1: the last byte of the slice (resolved by the worker)
         return dict(op="Poke", h=args[0], j=1 if args[1] == "first" else -1, n=args[2])
     if name == "Grow":
@@ -325,9 +349,12 @@ def cover(nodes, edges, max_len, delim, owned):
     startable = [n for n, v in nodes.items() if v["lr"] == 0 and not v["prev"] and not v["held"]]
     reach = {n: (n, []) for n in startable}      # shortest path from some startable state
     q = collections.deque(startable)
-    while q:
-        u = q.popleft()
+    is_rec = [e[1].startswith("Recycle") for e in edges]    # executed through the real library's pool: the state of
+    while q:                                                 # the graph is left there (the real prefix is longer), so
+        u = q.popleft()                                      # such an edge + its probe ends a walk
         for ei in out[u]:
+            if is_rec[ei]:
+                continue
             v = edges[ei][2]
             if v not in reach:
                 reach[v] = (reach[u][0], reach[u][1] + [ei])
@@ -382,7 +409,7 @@ def cover(nodes, edges, max_len, delim, owned):
 
     def nearby(cur):
         for ei in out[cur]:
-            if purge(edges[ei][2]):
+            if not is_rec[ei] and purge(edges[ei][2]):
                 return [ei]
         return None
 
@@ -400,6 +427,8 @@ def cover(nodes, edges, max_len, delim, owned):
                 seq, nxt = item
                 walk.extend(seq)
                 cur = nxt
+                if is_rec[seq[0]]:
+                    break
                 continue
             pending.pop(cur, None)
             p = nearby(cur)
@@ -483,6 +512,12 @@ def vacuity_gate(nodes, edges):
         "a store through an owned copy changes nothing in the buffer": any(
             a["data"] == b["data"] and a["prev"] == b["prev"] and a["lr"] == b["lr"] for a, b in by["Poke"]),
         "a modifying call ends the window of a kept alias": any(b["held"] < a["held"] for a, b in by["UnreadByte"]),
+        "Recycle after a read (read point advanced, last read recorded)": any(a["lr"] != 0 and a["prev"] for a, b in by["Recycle"]),
+        "Recycle after Grow moved the data (last read recorded, read point at the start)": any(
+            a["lr"] != 0 and not a["prev"] and a["data"] for a, b in by["Recycle"]),
+        "Recycle of a drained encoder": any(not a["data"] and a["prev"] and b["data"] and not b["prev"] and b["lr"] == 0 for a, b in by["Recycle"]),
+        "an owned result outlives Recycle, an alias does not": any(1 in a["tags"] and 1 in b["tags"] for a, b in by["Recycle"]) and any(
+            (3 in a["tags"] or 4 in a["tags"]) and not b["tags"] for a, b in by["Recycle"]),
         "a kept result outlives a reset of the storage": any(
             a["held"] and b["held"] and not a["data"] and a["prev"] and not b["prev"] for a, b in by["Read"]),
     }
@@ -496,7 +531,7 @@ def vacuity_gate(nodes, edges):
 
 def trace_consts(trace_name):
     return dict(Payloads=[[]], ByteArgs=set(), Runes=set(), Counts=set(), Inits={()}, RuneSpace=set(),
-                DecBytes=set(), Retain=set(), PokeVals=set(), Nests=[], RePay=set(), ReFins=set(), TraceFile=trace_name)
+                DecBytes=set(), Retain=set(), PokeVals=set(), Nests=[], RePay=set(), ReFins=set(), Recs=set(), TraceFile=trace_name)
 
 
 def split_trace(path, parts, scratch, tag):
@@ -587,6 +622,8 @@ def event_to_op(ev):
         del op["pb"]
     if ev["op"] == "ReadFrom":
         op.pop("fin", None)
+    if ev["op"] == "Recycle":
+        op.pop("b", None)       # (the record's prefix: computed by the worker from the message length n)
     if "plan" in ev:            # a collaborator with a plan per call (nested calls included), sizes as executed
         op["calls"] = json.loads(ev["plan"])
     op["fixed"] = True
@@ -848,6 +885,58 @@ def collab_behaviours(rng, quick):
     return out
 
 
+def recycle_behaviours(rng, quick):
+    """Histories over several records of one logger (Buffer.tla, RECYCLING): what the marshaller of the first
+    record did to the encoder (reads of every kind, drained / half read / unread again / slid by Grow /
+    reallocated / truncated / handed to a writer / nothing) x the length of the next record's message
+    (shorter and longer than what was consumed) x what the marshaller of the next record does first
+    (identification probes, observers, reads, a write), + the same with a passive record in between and
+    with the first record's results still kept by the caller.  Returns [(group, behaviour)]."""
+    out = []
+    K = lambda op, kind, **kw: dict(op=op, kind=kind, **kw)
+    firsts = [
+        ("nothing", []), ("drain-next", [K("Next", "len")]), ("drain-write", [K("Next", "len"), dict(op="WriteString", b=[34, 100, 34])]),
+        ("next-half", [K("Next", "half")]), ("next-one", [K("Next", "one")]), ("read-all", [K("Read", "len")]), ("readbyte", [dict(op="ReadByte")]),
+        ("readrune", [dict(op="ReadRune")]), ("readbytes", [dict(op="ReadBytes", n=58)]), ("readstring", [dict(op="ReadString", n=44)]),
+        ("readstring-all", [dict(op="ReadString", n=0)]), ("read-unread", [dict(op="ReadByte"), dict(op="UnreadByte")]),
+        ("rune-unread", [dict(op="ReadRune"), dict(op="UnreadRune")]), ("read-slide", [dict(op="ReadByte"), dict(op="Grow", kind="nofit")]),
+        ("rune-slide", [dict(op="ReadRune"), dict(op="Grow", kind="nofit")]), ("half-realloc", [K("Next", "half"), dict(op="Grow", kind="nofitbig")]),
+        ("read-to-eof", [K("Next", "lenm1"), dict(op="ReadByte"), dict(op="ReadByte")]), ("truncate-half", [K("Truncate", "half")]),
+        ("half-truncate", [K("Next", "half"), K("Truncate", "one")]), ("reset-write-read", [dict(op="Reset"), dict(op="Write", b=[A, 98, 99]), dict(op="ReadByte")]),
+        ("writeto-short", [dict(op="WriteTo", fin="short", wa=9)]), ("writeto-err", [dict(op="WriteTo", fin="err", wa=30)]),
+        ("writeto-all", [dict(op="WriteTo", fin="ok")]), ("readfrom-then-read", [dict(op="ReadFrom", b=pattern(600), pfin="eof", chunks=[]), K("Next", "half")]),
+        ("big-write-drain", [dict(op="Write", pat=[3000, 1]), K("Next", "lenm1")]),
+    ]
+    probes = [[dict(op="UnreadByte")], [dict(op="UnreadRune")], [dict(op="Len"), dict(op="String"), dict(op="Bytes")],
+              [dict(op="ReadByte"), dict(op="UnreadByte"), dict(op="UnreadByte")], [dict(op="ReadBytes", n=58), dict(op="String")],
+              [dict(op="WriteByte", n=A), dict(op="String")], [K("Next", "len"), dict(op="UnreadByte"), dict(op="Len")],
+              [dict(op="WriteTo", fin="ok"), dict(op="Len")], [K("Truncate", "lenm1"), dict(op="String")], [dict(op="ReadRune"), dict(op="UnreadRune"), dict(op="String")]]
+    fresh = lambda ops: json.loads(json.dumps(ops))
+    msgs = [[], pattern(90, 2)]                              # the first record: short / long message
+    for name, first in firsts:
+        for mi, msg in enumerate(msgs):
+            for n2 in (0, 25, 400):
+                if quick and (mi + n2 + len(name)) % 2 and name not in ("drain-next", "read-slide", "nothing"):
+                    continue
+                for keep in (False, True):
+                    ops = fresh(first)
+                    if keep:                                 # the caller keeps what the first record's calls handed out
+                        for o in ops:
+                            if o["op"] in ("Next", "Read", "ReadBytes", "ReadString"):
+                                o["keep"] = True
+                        if not any(o.get("keep") for o in ops):
+                            continue
+                    new = dict(op="New", how="marshal", b=list(msg), cap=0, hold=2 if keep else 0)
+                    out.append(("recycle:two:" + name, dict(new=new, obs="every",
+                                                            ops=ops + [dict(op="Recycle", n=n2)] + fresh(rng.choice(probes)))))
+        # a passive record in between (what one record left behind stays until somebody resets it), and a third that reads again
+        new = dict(op="New", how="marshal", b=list(msgs[rng.randrange(2)]), cap=0, hold=0)
+        out.append(("recycle:three:" + name, dict(new=new, obs="every", ops=fresh(first) + [dict(op="Recycle", n=rng.choice([0, 60]))]
+                                                  + fresh(rng.choice([[], [dict(op="Len")], [dict(op="ReadByte")]]))
+                                                  + [dict(op="Recycle", n=rng.choice([0, 3, 200]))] + fresh(rng.choice(probes)))))
+    return out
+
+
 def run_script(ctx, script, tag, parts):
     sp = os.path.join(ctx.scratch, tag + "-script.json")
     with open(sp, "w") as fh:
@@ -899,8 +988,10 @@ def run(ctx, replay):
     wth.start()
     # ---- 1. exhaustive model checking (+ dumps)
     behaviours, graph_info, gates = [], [], []
+    n_recwalks = 0
     exhaustive = True
     background = []
+    bg_jobs = []
     rbox = {}
 
     def rwork():
@@ -913,23 +1004,26 @@ def run(ctx, replay):
     rth = threading.Thread(target=rwork, daemon=True)
     rth.start()
     background.append(("impl-refinement", dict(MaxLen=impl_config(quick)["MaxLen"]), rth, rbox))
+    # the largest configurations are only model-checked (no dump): one after the other in one thread, while the graphs of
+    # the others are covered, the worker runs and the traces are validated
     for name, consts, dump, bg in configs(quick):
+        if bg:
+            bg_jobs.append((name, consts) + mc_files(consts, False) + ({},))
+    def bgwork():
+        for name_, _, mc_, cfg_, box in bg_jobs:
+            try:
+                box["r"] = ctx.tlc("MC", "MC.cfg", files={"MC.tla": mc_, "MC.cfg": cfg_}, name="buffer-" + name_, workers=8, timeout=2400)
+            except Exception as ex:  # noqa: BLE001 - re-raised after join
+                box["ex"] = ex
+    if bg_jobs:
+        bth = threading.Thread(target=bgwork, daemon=True)
+        bth.start()
+        background.extend((name_, consts_, bth, box) for name_, consts_, _, _, box in bg_jobs)
+    for name, consts, dump, bg in configs(quick):
+        if bg:
+            continue
         mc, cfg = mc_files(consts, dump)
         dot = os.path.join(ctx.scratch, "graph-" + name)
-        if bg:
-            # the largest configuration is only model-checked (no dump); it runs while the traces are validated
-            box = {}
-
-            def work(mc=mc, cfg=cfg, name=name, box=box):
-                try:
-                    box["r"] = ctx.tlc("MC", "MC.cfg", files={"MC.tla": mc, "MC.cfg": cfg}, name="buffer-" + name,
-                                       workers=8, timeout=2400)
-                except Exception as ex:  # noqa: BLE001 - re-raised after join
-                    box["ex"] = ex
-            th = threading.Thread(target=work, daemon=True)
-            th.start()
-            background.append((name, consts, th, box))
-            continue
         r = ctx.model_check("MC", "MC.cfg", files={"MC.tla": mc, "MC.cfg": cfg}, name="buffer-" + name,
                             extra=(["-dump", "dot,actionlabels", dot] if dump else []), timeout=1500)
         if r.distinct < 100:
@@ -947,6 +1041,12 @@ def run(ctx, replay):
                 covered.update(walk)
                 ops = [label_to_op(edges[ei][1], consts, rng) for ei in walk]
                 d = nodes[start]["data"]
+                if any(o["op"] == "Recycle" for o in ops):
+                    # through the library: the encoder of a record, brought to the walk's first state by listed calls
+                    behaviours.append(dict(new=dict(op="New", how="marshal", b=[], cap=0, hold=consts["Hold"]), obs="every",
+                                           ops=[dict(op="Reset"), dict(op="Write", b=list(d))] + ops))
+                    n_recwalks += 1
+                    continue
                 how = rng.choice(["bytes", "string", "cap", "cap"] if d else ["zero", "bytes", "string", "cap", "cap"])
                 behaviours.append(dict(new=dict(op="New", how=how, b=d, cap=rng.choice([0, 1, 2, 4, 8, 64, 1024]),
                                                 hold=consts["Hold"]), obs="every", ops=ops))
@@ -973,7 +1073,7 @@ def run(ctx, replay):
         graph_info.append(info)
     n_graph = len(behaviours)
     # ---- 1b. scripted collaborators: re-entrant readers / writers, plans per call, contents above 64 KiB
-    collab = collab_behaviours(rng, quick)
+    collab = collab_behaviours(rng, quick) + recycle_behaviours(rng, quick)
     behaviours.extend(b for _, b in collab)
     n_scripted = len(behaviours)
     lap("collaborator scripts: %d" % len(collab))
@@ -984,7 +1084,7 @@ def run(ctx, replay):
                dict(seed=ctx.seed * 1000 + 3, traces=600, min_len=5, max_len=14, profile="re")]
     else:
         rnd = [dict(seed=ctx.seed * 1000 + 1, traces=20000, min_len=40, max_len=100, profile="small"),
-               dict(seed=ctx.seed * 1000 + 2, traces=4000, min_len=80, max_len=200, profile="big"),
+               dict(seed=ctx.seed * 1000 + 2, traces=3000, min_len=80, max_len=200, profile="big"),
                dict(seed=ctx.seed * 1000 + 3, traces=5000, min_len=5, max_len=16, profile="re")]
     script = dict(seed=ctx.seed, behaviours=behaviours, random=rnd)
     wth.join()
@@ -1045,6 +1145,24 @@ def run(ctx, replay):
             raise Undecided("collaborator scripts of group %s: only %d of %d stay inside what bytes.Buffer defines" % (g, defined[g], groups[g]))
     if not ctx.violations and (coll["with_a_reallocation_from_inside"] < 20 or coll["writes_above_64KiB"] < 5):
         raise Undecided("vacuous collaborator drivers: %s" % dict(coll))
+    # records: how often the pool really handed the previous record's encoder to the next record
+    rec = collections.Counter()
+    k = 0
+    for i_, l in enumerate(rows.lines):
+        if l.startswith('{"op":"New"'):
+            k += 1
+        elif l.startswith('{"op":"Recycle"'):
+            src = "graph" if k <= n_graph else "scripted" if k <= n_scripted else "random"
+            rec["steps"] += 1
+            rec["steps_" + src] += 1
+            if '"same":true' in l:
+                rec["same_object_" + src] += 1
+            if '"lpan":""' not in l:
+                rec["logging_call_of_the_previous_record_panicked"] += 1
+    if not ctx.violations and (rec["steps_graph"] < n_recwalks or rec["same_object_graph"] * 10 < rec["steps_graph"] * 9
+                               or rec["same_object_scripted"] * 10 < rec["steps_scripted"] * 9 or rec["same_object_random"] < 20):
+        raise Undecided("vacuous record histories (the pool did not hand the encoder of one record to the next): %s" % dict(rec))
+    ctx.extra.update(records=dict(graph_walks_through_the_library=n_recwalks, **rec))
     ctx.nontrivial += len(set(g for g, _ in collab))
     ctx.extra.update(collaborators=dict(scripted_behaviours=dict(groups), scripted_behaviours_with_verdict=dict(defined),
                                         lines_outside_the_defined_behaviour_of_bytes_Buffer=len(skipped), **coll))
@@ -1076,6 +1194,9 @@ def run(ctx, replay):
         "collaborators that call back: the reference is the Go 1.23 source of bytes.Buffer (its documentation is silent); the model's "
         "reading of it is validated against bytes.Buffer on every run; outcomes that depend on storage nobody wrote or leave a negative "
         "Len() are declared undefined and get no verdict; capacity inputs (Available, Cap, read offset) are observed from inside the collaborator",
+        "records: what the library has written of a record when it calls the marshaller is predicted from the frame of its JSON "
+        "records (head + message + tail), measured at the start of the worker on fresh encoders and cross-checked; sync.Pool is "
+        "relied upon to hand the encoder of one record to the next on the same goroutine (recorded per step, too few = undecided)",
         "ownership: the worker keeps the returned slices / strings themselves (results up to 64 bytes, at most `hold` of them, "
         "oldest forgotten first) and logs their current bytes after every step; an alias (Bytes, Next) is dropped - by the "
         "model and by the worker - at the next call of any method other than Len / Bytes / String, so nothing bytes.Buffer "
@@ -1088,6 +1209,7 @@ def run(ctx, replay):
                            "returned slices (non-trivial = executed state-changing transitions) + seeded random histories "
                            "(non-trivial = distinct (call, panic, error, result-size, argument-size) signatures) + scripted "
                            "collaborators (nested calls x constructors x order x answers, plans per call, 64 KiB..200000 byte contents; "
-                           "non-trivial = groups); all "
+                           "non-trivial = groups) + histories over several records of one logger (Recycle: graph transitions, scripted "
+                           "grid, random); all "
                            "validated by TLC against BufferTrace, kept slices included",
                       exhaustive=exhaustive)
